@@ -286,8 +286,9 @@ impl<'a> LfnBuffer<'a> {
         // values to encode (see UTF-16 Surrogate Pairs).
         //
         // We cache the decoded chars into this array so we can iterate them
-        // backwards. It's 60 bytes, but it'll have to do.
-        let mut char_vec: heapless::Vec<char, 13> = heapless::Vec::new();
+        // backwards. There can be 14 of them: 13 from this chunk, plus the
+        // unpaired surrogate saved from last time if it still has no pair.
+        let mut char_vec: heapless::Vec<char, 14> = heapless::Vec::new();
         // Now do the decode, including the unpaired surrogate (if any) from
         // last time (maybe it has a pair now!)
         let mut is_first = true;
